@@ -85,8 +85,9 @@ def same_slot(qm, alias, bs, ty):
     fl = is_float(ty)
     u = units_type(bs, ty)
     if fl:
-        tail = """let mx = x.max(y); let mn = x.min(y);
-            format!("{} {} - {} {} - -", row, pc, sh(&mx.value), sh(&mn.value))"""
+        tail = """let (rx, rn) = (x.value.max(y.value), x.value.min(y.value));
+            let mx = x.max(y); let mn = x.min(y);
+            format!("{} {} - {} {} - - {} {}", row, pc, sh(&mx.value), sh(&mn.value), sh(&rx), sh(&rn))"""
     else:
         tail = """let cm = match Ord::cmp(&x, &y) { std::cmp::Ordering::Less => "-1", std::cmp::Ordering::Equal => "0", std::cmp::Ordering::Greater => "1" };
             let mx = Ord::max(x.clone(), y.clone()); let mn = Ord::min(x.clone(), y.clone());
@@ -97,6 +98,18 @@ def same_slot(qm, alias, bs, ty):
             let mut h2 = std::collections::hash_map::DefaultHasher::new(); y.hash(&mut h2);
             let mut h3 = std::collections::hash_map::DefaultHasher::new(); x.value.hash(&mut h3);
             format!("{} {} {} {} {} {} {}{}", row, pc, cm, sh(&mx.value), sh(&mn.value), sh(&cl.value), b(h1.finish() == h2.finish()), b(h1.finish() == h3.finish()))"""
+    # equal but distinguishable operands exist for Ratio storage only: 1/2 and 2/4 put into the public field unreduced
+    tie = ""
+    if STYPES[ty]["cls"] == "q":
+        tie = """"tie" => {
+            let n1: i32 = a[1].parse().unwrap(); let d1: i32 = a[2].parse().unwrap(); let k: i32 = a[3].parse().unwrap();
+            let (ra, rb) = (V::new_raw(n1.into(), d1.into()), V::new_raw((n1 * k).into(), (d1 * k).into()));
+            let raw = |v: &V| format!("{}/{}", v.numer(), v.denom());
+            let (x, y) = (mk(ra.clone()), mk(rb.clone()));
+            let (mx, mn, cl) = (Ord::max(x.clone(), y.clone()), Ord::min(x.clone(), y.clone()), Ord::clamp(x.clone(), y.clone(), y.clone()));
+            let (sx, sn, sc) = (Ord::max(ra.clone(), rb.clone()), Ord::min(ra.clone(), rb.clone()), Ord::clamp(ra.clone(), rb.clone(), rb.clone()));
+            format!("{} {} {} {} {} {}", raw(&mx.value), raw(&mn.value), raw(&cl.value), raw(&sx), raw(&sn), raw(&sc))
+        }"""
     return f"""    type V = {rt};
     type Q = uom::si::{qm}::{alias}<{u}, V>;
     fn mk(v: V) -> Q {{ Q {{ dimension: PhantomData, units: PhantomData, value: v }} }}
@@ -109,6 +122,7 @@ def same_slot(qm, alias, bs, ty):
             let row = format!("{{}}{{}}{{}}{{}}{{}}{{}}", b(x == y), b(x != y), b(x < y), b(x <= y), b(x > y), b(x >= y));
             {tail}
         }}
+        {tie}
         _ => "BADOP".to_string(),
     }}"""
 
